@@ -37,57 +37,55 @@ Print Assumptions edns_version_roundtrip.
 
 (* ------------------------------------------------------------------------------------------ *)
 From DV Require Import Proofs.NameOrder Proofs.NameValid Proofs.NameCompress.
-From DV Require Import Proofs.MessageName Proofs.MessageRender Proofs.MessageRead Proofs.MessageRoundtrip Proofs.MessageRoundtrip2.
+From DV Require Import Proofs.MessageName Proofs.MessageRender Proofs.MessageRead Proofs.MessageRoundtrip Proofs.MessageRoundtrip2 Proofs.MessageRoundtrip3.
 
-(* Rendering a well-formed ordinary message (any opcode but UPDATE; EDNS with any flags, extended
-   rcode, version, payload and generic options; no TSIG record; absolute names, no origin) without
-   a size overflow and parsing the octets yields the same id and flags (hence opcode and rcode, see
-   the bit theorems above), the same EDNS state, and in every section the same record sets in the
-   same order with the same TTLs and RDATA, names equal up to ASCII case (the library's name
-   equality; compression is case-insensitive).  _partial: the TSIG record, rendering with an
-   origin and the dynamic-update forms are covered by the correspondence and the oracle only. *)
-Theorem render_parse_partial : forall m max_size request_payload w,
-  WfMsg m -> mtsig m = None ->
-  to_wire m None max_size request_payload false 0 = Ok w ->
-  exists m', from_wire w None po0 = Ok m' /\ msg_equiv m' m.
-Proof. exact render_parse_lemma. Qed.
+(* Rendering a well-formed ordinary message (any opcode but UPDATE; any id and flags; EDNS with any
+   flags, extended rcode, version, payload and generic options; a TSIG record; with or without an
+   origin, i.e. with relative names) without a size overflow and parsing the octets with the same
+   origin yields the same id and flags (hence opcode and rcode, see the bit theorems above), the same
+   EDNS state, the same TSIG record, and in every section the same record sets in the same order with
+   the same TTLs and RDATA, names equal up to ASCII case (the library's name equality; compression is
+   case-insensitive).
+   _partial: the dynamic-update forms (empty class-ANY/NONE records, one record per set) are in the
+   model and covered by the correspondence and the oracle, not by this theorem. *)
+Theorem render_parse_partial : forall o m max_size request_payload w,
+  org_ok o -> WfMsg o m -> wf_tsig m ->
+  to_wire m o max_size request_payload false 0 = Ok w ->
+  exists m', from_wire w o po0 = Ok m' /\ msg_equiv_t m' m.
+Proof. intros o m ms rp w OO. exact (render_parse_full_lemma o OO m ms rp w). Qed.
 Print Assumptions render_parse_partial.
 
-(* the header counts equal the records present: the chains of records laid out from offset 12
-   account for every octet of the message *)
-Theorem counts_exact : forall m max_size request_payload w,
-  WfMsg m -> mtsig m = None -> to_wire m None max_size request_payload false 0 = Ok w ->
+(* the header counts equal the records present (record sets count one per record, an empty set one;
+   OPT and TSIG count in the additional section), and the reader, which reads exactly that many
+   records and rejects trailing octets, accepts the message *)
+Theorem counts_exact : forall o m max_size request_payload w,
+  org_ok o -> WfMsg o m -> wf_tsig m -> to_wire m o max_size request_payload false 0 = Ok w ->
   exists body,
     w = hdr_bytes (mid m) (mflags m) (zlen (mq m)) (rr_count (man m)) (rr_count (mau m))
-                  (rr_count (mad m) + opt_count (mopt m)) ++ body /\
-    exists (qs : list qd) (ds1 ds2 ds3 : list rrd) (e0 e1 e2 e3 : nat),
-      zlen qs = zlen (mq m) /\ zlen ds1 = rr_count (man m) /\ zlen ds2 = rr_count (mau m) /\
-      zlen ds3 = rr_count (mad m) /\
-      QChain w 12 qs e0 /\ Chain w e0 ds1 e1 /\ Chain w e1 ds2 e2 /\ Chain w e2 ds3 e3 /\
-      match mopt m with
-      | Some o' => exists owner' wb, RRreads w e3 owner' tOPT (opayload o') (oflags o') [FRest] [PB wb] (length w)
-      | None => e3 = length w
-      end.
-Proof. exact counts_exact_lemma. Qed.
+                  (rr_count (mad m) + opt_count (mopt m) + opt_count (mtsig m)) ++ body /\
+    exists m', from_wire w o po0 = Ok m'.
+Proof. intros o m ms rp w OO. exact (counts_exact_lemma o OO m ms rp w). Qed.
 Print Assumptions counts_exact.
 
-(* every name the renderer writes keeps the compression table sound (each entry's offset decodes,
-   by the fuel-free decoding relation Dec = NameM.from_wire, to a name ci-equal to its key) and is
-   recovered by the independent decoder NameM.from_wire and by the reader's decoder *)
-Theorem name_write_sound : forall n c file t file' t',
-  TableSound file t -> name_ok n -> name_to_wire n None c file t = Ok (file', t') ->
-  exists em n',
-    file' = file ++ em /\ TableSound file' t' /\ ci_equal n' n /\
-    NameM.from_wire file' (length file) = Ok (n', length em) /\
-    (forall ext endp, (length file' <= endp)%nat -> nm_from_wire (file' ++ ext) endp (length file) = Ok (n', length file')).
-Proof. exact name_write_sound_lemma. Qed.
+(* every name the renderer writes (compressed or not, absolute or completed with the origin) keeps
+   the compression table sound (each entry's offset decodes, by the fuel-free decoding relation
+   Dec = NameM.from_wire, to a name ci-equal to its key) and is recovered by the independent decoder
+   NameM.from_wire and by the reader's get_name *)
+Theorem name_write_sound : forall o n c file t file' t',
+  org_ok o -> TableSound file t -> name_wf o n -> name_to_wire n o c file t = Ok (file', t') ->
+  exists em L L' n',
+    file' = file ++ em /\ TableSound file' t' /\ full_labels n o = Ok L /\ ci_equal L' L /\
+    NameM.from_wire file' (length file) = Ok (L', length em) /\
+    relz o L' = Ok n' /\ ci_equal n' n /\
+    (forall ext endp, (length file' <= endp)%nat -> get_name (file' ++ ext) o endp (length file) = Ok (n', length file')).
+Proof. intros o n c file t file' t' OO. exact (name_write_sound_lemma o OO n c file t file' t'). Qed.
 Print Assumptions name_write_sound.
 
 (* ... and the invariant holds for the final octets (after the header has been written) *)
-Theorem render_table_sound : forall m max_size request_payload r,
-  WfMsg m -> mtsig m = None -> to_wire_st m None max_size request_payload false 0 = Ok r ->
+Theorem render_table_sound : forall o m max_size request_payload r,
+  org_ok o -> WfMsg o m -> mtsig m = None -> to_wire_st m o max_size request_payload false 0 = Ok r ->
   TableSound (out r) (tbl r).
-Proof. exact render_table_sound_lemma. Qed.
+Proof. intros o m ms rp r OO. exact (render_table_sound_lemma o OO m ms rp r). Qed.
 Print Assumptions render_table_sound.
 
 (* ---- non-vacuity: a response with shared suffixes, a case variant, MX/NS/SOA names and EDNS ---- *)
@@ -104,39 +102,43 @@ Definition ex_m : msg :=
         [mkRR n_ex 1 16 0 None 5 [[PB [2; 104; 105]]]]
         (Some (mkOpt 32768 1232 [(65001, [1; 2; 3])])) None.
 
-Ltac pieces := repeat (cbn [piece_ok]; first [assumption | exact Logic.I | reflexivity | constructor]).
+Ltac pieces := repeat (cbn [piece_wf]; first [assumption | exact Logic.I | reflexivity | constructor]).
 Ltac solve_name_ok := split; [repeat split; [repeat constructor; vm_compute; discriminate | vm_compute; discriminate | repeat constructor; discriminate] | reflexivity].
 
-Lemma ex_m_wf : WfMsg ex_m.
+Lemma nw_none n : name_ok n -> name_wf None n.
+Proof. intros H. left. split; [exact H|exact Logic.I]. Qed.
+
+Lemma ex_m_wf : WfMsg None ex_m.
 Proof.
   assert (N1 : name_ok n_www) by solve_name_ok.
   assert (N2 : name_ok n_WWW) by solve_name_ok.
   assert (N3 : name_ok n_ex) by solve_name_ok.
   assert (N4 : name_ok [[109]; [101; 120]; [99; 111; 109]; []]) by solve_name_ok.
+  pose proof (nw_none _ N1) as W1. pose proof (nw_none _ N2) as W2. pose proof (nw_none _ N3) as W3. pose proof (nw_none _ N4) as W4.
   constructor; cbn [ex_m mflags mq man mau mad mopt].
   - reflexivity.
-  - constructor; [exact N1|constructor].
+  - constructor; [exact W1|constructor].
   - constructor; [|constructor; [|constructor]].
     + unfold wf_rrset. cbn [rname rdeleting rrds rtype rttl rclass rcovers].
-      split; [exact N1|]. split; [reflexivity|]. split; [discriminate|]. split; [discriminate|]. split; [discriminate|].
+      split; [exact W1|]. split; [reflexivity|]. split; [discriminate|]. split; [discriminate|]. split; [discriminate|].
       split; [lia|]. split.
       { exists [FFix 2; FNameC]. split; [reflexivity|].
         pieces. }
       split; [repeat constructor|]. split; [repeat constructor; reflexivity|discriminate].
     + unfold wf_rrset. cbn [rname rdeleting rrds rtype rttl rclass rcovers].
-      split; [exact N2|]. split; [reflexivity|]. split; [discriminate|]. split; [discriminate|]. split; [discriminate|].
+      split; [exact W2|]. split; [reflexivity|]. split; [discriminate|]. split; [discriminate|]. split; [discriminate|].
       split; [lia|]. split.
       { exists [FFix 4]. split; [reflexivity|]. repeat constructor. }
       split; [repeat constructor|]. split; [repeat constructor|discriminate].
   - constructor; [|constructor].
     unfold wf_rrset. cbn [rname rdeleting rrds rtype rttl rclass rcovers].
-    split; [exact N3|]. split; [reflexivity|]. split; [discriminate|]. split; [discriminate|]. split; [discriminate|].
+    split; [exact W3|]. split; [reflexivity|]. split; [discriminate|]. split; [discriminate|]. split; [discriminate|].
     split; [lia|]. split.
     { exists [FNameC; FNameC; FFix 20]. split; [reflexivity|]. pieces. }
     split; [repeat constructor|]. split; [repeat constructor|reflexivity].
   - constructor; [|constructor].
     unfold wf_rrset. cbn [rname rdeleting rrds rtype rttl rclass rcovers].
-    split; [exact N3|]. split; [reflexivity|]. split; [discriminate|]. split; [discriminate|]. split; [discriminate|].
+    split; [exact W3|]. split; [reflexivity|]. split; [discriminate|]. split; [discriminate|]. split; [discriminate|].
     split; [lia|]. split.
     { exists [FTxt]. split; [reflexivity|]. repeat constructor.
       exists [[104; 105]]. split; [discriminate|]. split; [repeat constructor; vm_compute; discriminate|reflexivity]. }
@@ -144,7 +146,7 @@ Proof.
   - cbn [keys_fresh]. repeat split; repeat constructor.
   - cbn [keys_fresh]. repeat split; repeat constructor.
   - cbn [keys_fresh]. repeat split; repeat constructor.
-  - repeat constructor.
+  - split; [repeat constructor|]. apply nw_none. split; [apply Valid_root|reflexivity].
 Qed.
 
 Example render_parse_nonvacuous :
@@ -154,7 +156,7 @@ Example render_parse_nonvacuous :
                map rname (man m') = [n_www; n_www].
 Proof.
   destruct (to_wire ex_m None 0 0 false 0) as [w| |] eqn:E; try (vm_compute in E; discriminate).
-  destruct (render_parse_partial ex_m 0 0 w ex_m_wf eq_refl E) as (m' & F & EQ).
+  destruct (render_parse_partial None ex_m 0 0 w Logic.I ex_m_wf Logic.I E) as (m' & F & (EQ & _)).
   exists w, m'. split; [reflexivity|]. vm_compute in E. injection E as <-.
   split; [reflexivity|]. split; [exact F|]. split; [exact EQ|].
   vm_compute in F. injection F as <-. reflexivity.
